@@ -112,8 +112,8 @@ contract(
     raises=[('ValueError', lambda S, a: e_unsolved(S, a['self'].t))],
     ensures=e_eval_ens,
     modifies=lambda S, a: {n: (lambda r: z3.And(r == a['self'].t, z3.Not(S.fld('Expression', '_is_leaf', a['self'].t)))) for n in VAL_E},
-    loops={1: dict(inv=e_eval_inv, lemmas=e_eval_lemmas, real_vars=['value'], mods=lambda L: {})},
-    local_types={'point1': 'Point', 'point2': 'Point'},
+    loops={1: dict(inv=e_eval_inv, lemmas=e_eval_lemmas, real_vars=['value', 0], mods=lambda L: {})},
+    local_types={'point1': 'Point', 'point2': 'Point', 3: 'Point', 4: 'Point'},
 )
 
 
@@ -147,8 +147,8 @@ contract(
         ('cached', z3.And(z3.Not(pval_none(S, a['self'].t)), res.t == pval(S, a['self'].t)), 'property'),
         ('leaf_value', z3.Implies(S0.fld('Point', '_is_leaf', a['self'].t), res.t == pval(S0, a['self'].t)), 'property')],
     modifies=lambda S, a: {n: (lambda r: z3.And(r == a['self'].t, z3.Not(S.fld('Point', '_is_leaf', a['self'].t)))) for n in VAL_P},
-    loops={1: dict(inv=p_eval_inv, vec_vars=['value'], mods=lambda L: {})},
-    local_types={'point': 'Point'},
+    loops={1: dict(inv=p_eval_inv, vec_vars=['value', 0], mods=lambda L: {})},
+    local_types={'point': 'Point', 1: 'Point'},
 )
 
 # ------------------------------------------------------------------------------------ Constraint.eval
